@@ -1,4 +1,5 @@
 import Firebolt.Spec.ExecTrace
+import Driver.FlowNet
 /-! line-protocol adapter for the `flow-<property>` components (C01–C05, C16): a finished run of the real executor.
 input:  "tree <seed> <nroots> N <kind> <workers> <buf> <discard> <disabled> <wP> <wT> <wF> <wE> <maxFan> <amode> <latUs> <nc> <hh> … ; stream <n> ; opts …"
         (prefix order: node, its children, then its handler; node indices are assigned in that order)
@@ -100,6 +101,21 @@ def check (prop : String) (input impl : String) : Verdict :=
           let implView := joinWith " " (specs.map (fun s =>
             let ob := obsOf run s.idx
             viewOf prop s.idx ob.recv (ob.setups > 0) ob.received ob.processed ob.filtered ob.failed ob.discarded))
+          -- the operational product model (Model/ExecNet) run on the same tree and stream under a canonical global schedule:
+          -- its final component states must say what the denotational model says (and what the implementation did)
+          let simulated := predictable && emitted * specs.length ≤ 900
+          let net := if simulated then FlowNet.simulate harnessOracle roots (stream.take emitted) else none
+          let netView := net.map (fun rs => joinWith " " (specs.map (fun s =>
+            match rs.find? (fun r => r.idx = s.idx) with
+            | some r => viewOf prop s.idx r.recv true r.received r.processed r.filtered r.failed 0
+            | none => viewOf prop s.idx [] false 0 0 0 0 0)))
+          let netViol : Option String :=
+            if !simulated then none
+            else match netView with
+              | none => some "product-model-did-not-reach-quiescence"
+              | some v =>
+                if v ≠ modelView then some "operational-and-denotational-models-disagree"
+                else if (net.getD []).any (fun r => r.shutdowns ≠ 1) then some "product-model-node-not-shut-down" else none
           let tags :=
             (if predictable then ["predictable"] else ["discarding-tree"]) ++
             (if specs.any (fun s => s.kind = .async && !s.disabled) then ["async"] else []) ++
@@ -112,7 +128,9 @@ def check (prop : String) (input impl : String) : Verdict :=
             (if (kvGet itoks "progress").isSome then ["gated-discarding-node"] else []) ++
             (if specs.length > 6 then ["big-tree"] else [])
           { model := if predictable then modelView else implView, implView := some implView,
-            spec := if impl.startsWith "panic" then some (if impl.contains "DATA RACE" && prop == "C05" then "data-race" else "executor-panicked") else viols.head?.map (·.clause), tags := tags }
+            spec := if impl.startsWith "panic" then some (if impl.contains "DATA RACE" && prop == "C05" then "data-race" else "executor-panicked")
+                    else match viols.head?.map (·.clause) with | some c => some c | none => netViol,
+            tags := tags ++ (if simulated then ["product-model-run"] else []) }
         | _ => { model := "bad-input" }
       | _, _ => { model := "bad-input" }
     | _ => { model := "bad-input" }
